@@ -17,6 +17,7 @@ from afkak.client import KafkaClient
 from afkak.common import BrokerMetadata, KafkaUnavailableError, RequestTimedOutError
 
 from vlib.sim.net import SimNet, frame
+import vlib.sim.contract  # noqa: F401  (exact DelayedCall.getTime)
 from vlib.symrun import sym_and, sym_max, sym_or
 
 ID = "C11"
@@ -85,6 +86,9 @@ def jobs(tier):
             out.append({"kind": "broker", "n": 2 if q else 3, "disconnect": dis, "min_timeout": mt})
     # requests that expect no reply (produce with acks=0): complete when written, time out if never written
     out.append({"kind": "broker", "n": 2, "disconnect": False, "min_timeout": False, "noreply": True})
+    # an endpoint that connects before connect() returns: every request can be written the moment it is issued, also after the
+    # connection was dropped on a time-out
+    out.append({"kind": "broker", "n": 2, "disconnect": True, "min_timeout": False, "sync_accept": True})
     out.append({"kind": "bootstrap"})
     return out
 
@@ -111,7 +115,7 @@ def _broker(job):
         clock.rightNow = _zero(ctx)
         net = SimNet()
         client = KafkaClient("boot:9092", reactor=clock, endpoint_factory=net.endpoint_factory, disconnect_on_timeout=job["disconnect"],
-                             retry_policy=lambda k: 1.0, enable_protocol_version_discovery=False)
+                             retry_policy=lambda k: 1, enable_protocol_version_discovery=False)
         T = ctx.real("timeout", 0, 1000)
         if not ctx.assume(T > 0):
             return
@@ -124,9 +128,11 @@ def _broker(job):
         limit = T if M is None else sym_max(T, M)
         client._update_brokers([BrokerMetadata(1, "h", 9092)])
         broker = client._get_brokerclient(1)
-        ctx.sig("broker disconnect=%s min_timeout=%s n=%d%s" % (job["disconnect"], job["min_timeout"], n, " noreply" if job.get("noreply") else ""))
+        ctx.sig("broker disconnect=%s min_timeout=%s n=%d%s" % (job["disconnect"], job["min_timeout"], n, (" noreply" if job.get("noreply") else "") + (" sync-accept" if job.get("sync_accept") else "")))
 
-        connect_never = ctx.choose("connect", 2) == 1
+        if job.get("sync_accept"):
+            net.sync_accept = {("h", 9092)}
+        connect_never = True if job.get("sync_accept") else ctx.choose("connect", 2) == 1
         cdelay = None if connect_never else ctx.real("connect_delay", 0, 1000)
         reqs = []
         ext = []  # pending external events: [time, kind, payload]
@@ -156,6 +162,8 @@ def _broker(job):
 
             d.addBoth(on)
             schedule_replies()
+            if job.get("sync_accept"):
+                ctx.check(r.written == 1, "request-written-when-a-connection-can-be-had", "request %d issued at %s was not written although the endpoint connects at once" % (r.cid, r.issued))
 
         def schedule_replies():
             """a request written to the current connection gets its reply delay counted from the moment it was written"""
@@ -281,6 +289,16 @@ def _broker(job):
                     return
                 ctx.log("dropped", clock.seconds())
                 at = net.pending_attempts()
+                if job.get("sync_accept"):
+                    # the reconnect, if any, is already established
+                    ntr = (net.open_transports() or [None])[-1]
+                    if unanswered:
+                        ctx.check(ntr is not None, "disconnect-on-timeout-drops-and-resends", "unanswered requests remain but no new connection")
+                    if ntr is not None:
+                        want = [r.payload for r in unanswered]
+                        ctx.check(ntr.frames() == want, "disconnect-on-timeout-drops-and-resends", "new connection carries %d frames, %d requests unanswered" % (len(ntr.frames()), len(want)))
+                        schedule_replies()
+                    continue
                 if unanswered:
                     ctx.check(bool(at), "disconnect-on-timeout-drops-and-resends", "unanswered requests remain but no reconnect attempt")
                 if at:
